@@ -443,5 +443,12 @@ func (h *livenessHelper) doWhile(r livenesses, n *a.While, depth uint32) error {
 	}
 
 	copy(r, l.after)
+	// Strong is sticky. A "while true" loop without a break never reconciles
+	// into l.after, so carry over what the loop body found.
+	for i, x := range l.before {
+		if x == livenessStrong {
+			r[i] = livenessStrong
+		}
+	}
 	return nil
 }
